@@ -135,6 +135,12 @@ def batch_runs(ctx, kinds=("span", "log"), focus=None):
         # scenario families with a fixed shape under random scheduling (deeper in one corner)
         for sc in fixed[:3] + ([fixed[-2], fixed[-1]] if focus == "C02" else []):
             runs.append(["explore", k, "random", n // 2, s + 77, sc])
+        # a slow exporter (8 scheduling points inside Export) widens the windows in which producers and
+        # ForceFlush callers interleave with one export cycle: overlapping flushers, backlog > one batch
+        slow = ["3,1,1,3,2,1,8,3,0,0,0,0", "4,1,2,2,2,1,8,3,0,0,0,0", "4,2,2,3,2,1,8,0,1,0,0,0"]
+        for sc in slow if focus in ("C02", "C01") else slow[:1]:
+            runs.append(["explore", k, "random", n // 2, s + 78, sc])
+            runs.append(["explore", k, "pct", n // 2, s + 79, sc])
     return runs
 
 
